@@ -253,6 +253,7 @@ _CASES = [  # (PRQL expression, expected SQLite value, obligation)
     ("case [false => 1, true => 2, a > 1 => 3]", 2, "SE2"), ("case [false => 1]", None, "SE2"), ("case [a > 100 => 1, true => 2]", 2, "SE2"),
     ("case [a > 1 => 1, true => 2]", 1, "SE2"), ("case [n == 1 => 1, false => 2]", None, "SE2"), ("case [false => 1, a > 1 => 5, false => 6]", 5, "SE2"),
     ("case [true => case [false => 1, true => 4]]", 4, "SE2"),
+    ("2 == 2.0", 1, "SE1"), ("2 != 2.0", 0, "SE1"), ("case [2.0 == 2 => 10, true => -1]", 10, "SE1"),
     ("case [false => 1, true => 2]", 2, "SE2w"), ("case [1 == 2 => a, true => n]", None, "SE2w"), ("case [false => 1, false => 2, true => a]", 7, "SE2w"),
 ]
 
